@@ -115,7 +115,7 @@ Definition po_req_wellsplit (has_sub : bool) (patch : obj) (q : po_req) : Prop :
       j = JObj (if has_sub then del "status" patch else patch) /\
       (has_sub = true -> forall kvs, j = JObj kvs -> lookup "status" kvs = None)
   | UStatus, PMerge j =>
-      has_sub = true /\ exists v, lookup "status" patch = Some v /\ v <> JNull /\ j = JObj [("status", v)]
+      has_sub = true /\ exists v, lookup "status" patch = Some v /\ j = JObj [("status", v)]
   | UMain, PJson ops =>
       exists rv rest, ops = po_test rv :: rest /\ rest <> [] /\
                       (has_sub = true -> forallb (fun o => negb (po_is_status_op o)) rest = true)
@@ -152,9 +152,8 @@ Section Split.
   Proof.
     unfold po_split. destruct has_sub; [|intros H; discriminate].
     destruct (lookup "status" patch) as [v|] eqn:E; [|intros H; discriminate].
-    destruct v; intros H; try discriminate; injection H as <- <-;
-      unfold po_req_wellsplit, po_merge_req; cbn [rq_url rq_payload];
-      (split; [split; [reflexivity | eexists; split; [exact E | split; [discriminate | reflexivity]]] | reflexivity]).
+    intros H; injection H as <- <-; unfold po_req_wellsplit, po_merge_req; cbn [rq_url rq_payload].
+    split; [split; [reflexivity | eexists; split; [exact E | reflexivity]] | reflexivity].
   Qed.
 
   Lemma po_ws_body_json has_sub patch ops rv o l :
@@ -563,31 +562,26 @@ Proof.
   - simpl. destruct (String.eqb k k2); [reflexivity | exact IH].
 Qed.
 
-(* every key of the patch is in exactly one of the two merge payloads — unless it is `status: None` with a subresource *)
+(* every key of the patch is in exactly one of the two merge payloads (since the repair of F801 also `status: None`) *)
 Theorem po_split_cover has_sub patch bp sp k v :
   po_split has_sub patch = (bp, sp) -> lookup k patch = Some v ->
-  (has_sub = true -> k = "status" -> v <> JNull) ->
   (if has_sub && String.eqb k "status" then sp = Some (JObj [("status", v)]) /\ lookup k bp = None
    else lookup k bp = Some v).
 Proof.
-  unfold po_split. destruct has_sub; intros H Hl Hg; injection H as <- <-; simpl.
+  unfold po_split. destruct has_sub; intros H Hl; injection H as <- <-; simpl.
   - destruct (String.eqb k "status") eqn:Ek.
-    + apply String.eqb_eq in Ek. subst k. rewrite Hl. split; [|apply po_lookup_del_same].
-      specialize (Hg eq_refl eq_refl). destruct v; try reflexivity. contradiction.
+    + apply String.eqb_eq in Ek. subst k. rewrite Hl. split; [reflexivity | apply po_lookup_del_same].
     + rewrite po_lookup_del_other; assumption.
   - exact Hl.
 Qed.
 
-(* ... and that exception is real (finding F801): `status: None` is popped and sent nowhere *)
-Theorem po_split_cover_refuted :
-  exists patch bp sp, po_split true patch = (bp, sp) /\ lookup "status" patch = Some JNull /\
-                      sp = None /\ lookup "status" bp = None /\
-                      (forall S serve diff orig (s0 : S), r_log (patch_obj S serve diff true patch [] orig s0) = []).
-Proof.
-  exists [("status", JNull)], [], None. repeat split.
-  intros S serve diff orig s0. unfold patch_obj. simpl. unfold po_merge_status, po_json_phase, po_as_json_patch.
-  cbn [a_patched]. destruct (po_fresh None orig) as [[]|]; reflexivity.
-Qed.
+(* regression (the old witness of F801): `status: None` with a status subresource is planned for /status as {"status": null};
+   the examples with a server are further down (po_ex_status_null_*) *)
+Example po_status_null_split :
+  po_split true [("status", JNull)] = ([], Some (JObj [("status", JNull)])) /\
+  po_split true [("metadata", JObj []); ("status", JNull)] = ([("metadata", JObj [])], Some (JObj [("status", JNull)])) /\
+  po_split false [("status", JNull)] = ([("status", JNull)], None).
+Proof. repeat split. Qed.
 
 (* ---------- which requests are sent when nothing goes wrong ---------- *)
 Definition po_merge_plan (has_sub : bool) (patch : obj) : list po_req :=
@@ -894,3 +888,31 @@ Section Corollaries.
     intros Ha b rem Hr. apply (Hok Ha b rem Hr).
   Qed.
 End Corollaries.
+
+(* ---------- regression for F801 (repaired by kopf commit 0a8dc55) ---------- *)
+Example po_ex_status_null_plan :
+  po_merge_plan true [("status", JNull)] = [po_merge_req UStatus (JObj [("status", JNull)])] /\
+  po_merge_plan true [("metadata", JObj [("labels", JObj [("l", JStr "w")])]); ("status", JNull)] =
+    [po_merge_req UMain (JObj [("metadata", JObj [("labels", JObj [("l", JStr "w")])])]);
+     po_merge_req UStatus (JObj [("status", JNull)])] /\
+  po_merge_plan false [("status", JNull)] = [po_merge_req UMain (JObj [("status", JNull)])].
+Proof. repeat split. Qed.
+
+(* a scripted server: exactly one request, to /status, carrying {"status": null} *)
+Example po_ex_status_null_scripted :
+  let r := patch_obj po_script po_scripted po_ex_diff true [("status", JNull)] [] None [ROk (JObj [])] in
+  r_log r = [(po_merge_req UStatus (JObj [("status", JNull)]), ROk (JObj []))] /\ r_out r = Returned (Some (JObj [])) None.
+Proof. vm_compute. split; reflexivity. Qed.
+
+(* the stateful server: the status is gone afterwards, with and without the subresource *)
+Example po_ex_status_null_removed :
+  let b0 := JObj [("metadata", JObj [("uid", JStr "uid-1")]); ("spec", JObj [("a", JNum 1)]); ("status", JObj [("old", JNum 0)])] in
+  let obj0 := po_stamp (po_ex_rvs 0) b0 in
+  forall has_sub,
+    let r := patch_obj po_world (po_wserve po_ex_rvs (fun _ c => c) has_sub 9 (fun o => o)) po_ex_diff has_sub
+                       [("status", JNull)] [] (Some obj0) (mkW (Some obj0) 0 0 []) in
+    po_status_of obj0 = Some (JObj [("old", JNum 0)]) /\
+    map po_slot (map fst (r_log r)) = [if has_sub then 1 else 0]%nat /\ po_all_ok (r_log r) = true /\
+    exists final, w_obj (r_srv r) = Some final /\ po_status_of final = None /\
+                  jp_get final ["spec"; "a"] = Some (JNum 1).
+Proof. cbv zeta. intros [|]; (split; [reflexivity|]; split; [vm_compute; reflexivity|]; split; [vm_compute; reflexivity|]; eexists; vm_compute; repeat split). Qed.
